@@ -35,6 +35,7 @@ class Recorder:
         self.src_root = src_root
         self.known = known  # list of finding dicts for (prop, sub)
         self.evaluations = 0
+        self.extra_nontrivial = 0
         self.excluded = 0
         self.nontrivial_hashes = set()
         self.all_hashes = set()
@@ -77,6 +78,10 @@ class Recorder:
                 pass
             gc.collect()
         h = case_hash(case)
+        if v.count > 1 and h not in self.all_hashes:
+            self.evaluations += v.count - 1
+            if v.nontrivial:
+                self.extra_nontrivial += v.count - 1
         self.all_hashes.add(h)
         if v.nontrivial:
             self.nontrivial_hashes.add(h)
@@ -168,7 +173,7 @@ def _drive_given(rec: Recorder, sub: SubCheck, tier, seed, n, shrink_budget):
     from hypothesis import given
 
     info = {"rounds": 0}
-    for rnd in range(5):
+    for rnd in range(3 if tier == "quick" else 5):
         info["rounds"] = rnd + 1
         state = {"first_fail_t": None, "best": None}
 
@@ -301,7 +306,7 @@ def main(argv):
         n_total = sub.counts[tier]
         n = max(1, n_total // nshards)
         hseed = seed * 1000 + shard
-        shrink_budget = float(os.environ.get("VP_SHRINK_BUDGET", "60" if tier == "quick" else "240"))
+        shrink_budget = float(os.environ.get("VP_SHRINK_BUDGET", "25" if tier == "quick" else "240"))
         if sub.mode == "enum":
             info = _drive_enum(rec, sub, tier, shard, nshards)
         elif sub.mode == "given":
@@ -314,6 +319,7 @@ def main(argv):
             evaluations=rec.evaluations,
             excluded=rec.excluded,
             nontrivial_hashes=sorted(rec.nontrivial_hashes),
+            extra_nontrivial=rec.extra_nontrivial,
             distinct=len(rec.all_hashes),
             labels=rec.labels,
             samples=rec.samples,
